@@ -313,6 +313,23 @@ pub fn run_c19(tier: Tier) -> i32 {
         let path = write_replay("C19", &v.signature, &body);
         report.violations.push((v, path));
     }
+    // the real tokio driver's reconnect timer (the threaded driver waits on real time and is covered by the mirror only)
+    match guarded(crate::drivers::tokio_h::backoff_probe) {
+        Ok(problems) => {
+            report.add_count("tokio_driver_backoff_probe_executions", 1);
+            let mut seen = HashSet::new();
+            for (signature, detail) in problems {
+                if signature == "MACHINERY" { report.machinery_errors.push(detail); continue; }
+                if !seen.insert(signature.clone()) { continue; }
+                let bare = signature.strip_prefix("C19:").unwrap_or(&signature).to_string();
+                let v = Violation::new("C19", bare.clone(), detail.clone());
+                if let Some(k) = known.matches(&v) { report.known_hit.insert((v.property.clone(), format!("{} [{}]", k.what_fails, k.signature))); continue; }
+                let path = write_replay("C19", &bare, &json!({"kind": "tokio-backoff-probe", "signature": bare, "detail": detail, "how": "mc C19 quick re-runs the probe: every connection refused, base period 200 ms, a QoS 0 publish submitted every 20 ms of virtual time"}));
+                report.violations.push((v, path));
+            }
+        }
+        Err(message) => report.machinery_errors.push(format!("tokio back-off probe panicked: {}", message)),
+    }
     report.set("engine", json!("E2 back-off plane: every sequence of attempt outcomes up to the bound, for every configuration of the grid, executed on the real MqttClientImpl (advance_reconnect_period, transition_to_state) under the loop mirror with a virtual clock; oracle = reference recurrence"));
     report.set("configs", json!(configs.len()));
     report.set("rule", json!("state = one sequence of attempt outcomes (refused, handshake rejected, connected for a lifetime around the stability period) for one configuration of the grid base x max x stability x jitter; transition = appending one outcome; every non-empty sequence is executed on a fresh real client (one trace) and every wait it produced is compared with the reference recurrence; failing prefixes are not extended"));
